@@ -116,7 +116,7 @@ func (in *Interp) concInt(i Int, max int, what string) int {
 		}
 		return int(i.C)
 	}
-	opt := in.ex.take("len:"+what, max+1, func(k int) *Term {
+	opt := in.ex.takeValue("len:"+what, i.S, max, func(k int) *Term {
 		if in.intMode {
 			return in.ts.Op("=", 0, i.S, in.ts.IntU(uint64(k)))
 		}
